@@ -11,8 +11,8 @@ import (
 // Body is a function body under analysis: a declared function or one of its literals.
 type Body struct {
 	P      *Prog
-	Fn     *FuncInfo     // enclosing declared function
-	Lit    *ast.FuncLit  // nil for the declared function itself
+	Fn     *FuncInfo    // enclosing declared function
+	Lit    *ast.FuncLit // nil for the declared function itself
 	Block  *ast.BlockStmt
 	Type   *ast.FuncType
 	Sig    *types.Signature
